@@ -12,6 +12,10 @@ def b(name, file, old, new, props):
     B.append(dict(name=name, file=file, old=old, new=new, props=props))
 
 
+def b_multi(name, edits, props):
+    B.append(dict(name=name, edits=edits, file=edits[0][0], props=props))
+
+
 AV = "src/any_vec.rs"
 RAW = "src/any_vec_raw.rs"
 LIB = "src/lib.rs"
@@ -133,6 +137,14 @@ b("reserve-statements-reordered", RAW, "        let new_len = cmp::max(self.len,
 b("slot-helper-extracted", "src/ops/swap_remove.rs", "        let element = unsafe{ element_mut_ptr_at(any_vec_ptr, index) };\n", "        let slot = index;\n        let element = unsafe{ element_mut_ptr_at(any_vec_ptr, slot) };\n", ["C01", "C07", "C13"])
 b("drop-comment-and-inline-attr", "src/ops/splice.rs", "        // 4. restore len\n", "        // 4. restore the visible length\n", ["C02", "C06"])
 
+b_multi("bounds-check-moved-into-ctor", [
+    (AV, "    pub fn remove(&mut self, index: usize) -> Remove<Traits, M> {\n        self.raw.index_check(index);", "    pub fn remove(&mut self, index: usize) -> Remove<Traits, M> {"),
+    ("src/ops/remove.rs", "        let any_vec_raw = unsafe{ any_vec_ptr.any_vec_raw_mut() };\n        let last_index = any_vec_raw.len - 1;", "        let any_vec_raw = unsafe{ any_vec_ptr.any_vec_raw_mut() };\n        assert!(index < any_vec_raw.len, \"Index out of range!\");\n        let last_index = any_vec_raw.len - 1;"),
+    ("src/any_vec_typed.rs", "    pub fn remove(&mut self, index: usize) -> T {\n        self.this().index_check(index);", "    pub fn remove(&mut self, index: usize) -> T {"),
+], ["C01", "C07", "C05"])
+b("reserve-early-return-when-enough", RAW, "    pub fn reserve(&mut self, additional: usize) {\n        let new_len = self.len.checked_add(additional)\n            .expect(\"capacity overflow\");\n        if self.capacity() < new_len{\n            self.mem.expand(new_len - self.capacity());\n        }",
+  "    pub fn reserve(&mut self, additional: usize) {\n        let new_len = self.len.checked_add(additional)\n            .expect(\"capacity overflow\");\n        if self.capacity() >= new_len{\n            return;\n        }\n        self.mem.expand(new_len - self.capacity());", ["C10", "C05", "C08", "C11"])
+
 if __name__ == "__main__":
     import os, json, subprocess, tempfile, shutil
     here = os.path.dirname(os.path.abspath(__file__))
@@ -143,18 +155,26 @@ if __name__ == "__main__":
             if f.endswith(".patch"):
                 os.unlink(os.path.join(d, f))
         for e in lst:
-            src = open(os.path.join("/repo", e["file"])).read()
-            if src.count(e["old"]) != 1:
-                print("!! %s: anchor occurs %d times in %s" % (e["name"], src.count(e["old"]), e["file"]))
-                continue
-            new = src.replace(e["old"], e["new"])
+            edits = e.get("edits") or [(e["file"], e["old"], e["new"])]
             tmp = tempfile.mkdtemp()
-            a = os.path.join(tmp, "a", e["file"]); bpath = os.path.join(tmp, "b", e["file"])
-            os.makedirs(os.path.dirname(a)); os.makedirs(os.path.dirname(bpath))
-            open(a, "w").write(src); open(bpath, "w").write(new)
-            p = subprocess.run(["diff", "-u", "a/" + e["file"], "b/" + e["file"]], cwd=tmp, capture_output=True, text=True)
-            open(os.path.join(d, e["name"] + ".patch"), "w").write(p.stdout)
+            out = ""
+            bad = False
+            for (fl, old, new_) in edits:
+                src = open(os.path.join("/repo", fl)).read()
+                if src.count(old) != 1:
+                    print("!! %s: anchor occurs %d times in %s" % (e["name"], src.count(old), fl))
+                    bad = True
+                    break
+                new = src.replace(old, new_)
+                a = os.path.join(tmp, "a", fl); bpath = os.path.join(tmp, "b", fl)
+                os.makedirs(os.path.dirname(a), exist_ok=True); os.makedirs(os.path.dirname(bpath), exist_ok=True)
+                open(a, "w").write(src); open(bpath, "w").write(new)
+                p = subprocess.run(["diff", "-u", "a/" + fl, "b/" + fl], cwd=tmp, capture_output=True, text=True)
+                out += p.stdout
             shutil.rmtree(tmp)
+            if bad:
+                continue
+            open(os.path.join(d, e["name"] + ".patch"), "w").write(out)
             rec = {"name": e["name"], "file": e["file"], "props": e["props"]}
             if kind == "mutants":
                 rec["expect"] = e["expect"]
